@@ -121,7 +121,7 @@ def run_case(case):
             got = set(got_list)
             if got != rel1[w]:
                 failures.append(fail("translate", "missing" if rel1[w] - got else "extra",
-                                     {"word": w, "missing": sorted(rel1[w] - got)[:3], "extra": sorted(got - rel1[w])[:3]}))
+                                     {"word": w, "missing": sorted(rel1[w] - got, key=repr)[:3], "extra": sorted(got - rel1[w], key=repr)[:3]}))
                 break
 
     def check(name, f, expected):
@@ -132,8 +132,8 @@ def run_case(case):
                 failures.append(fail(name, "writing_epsilon_cycle"))
             elif got != expected:
                 bad = [w for w in words if got[w] != expected[w]][0]
-                failures.append(fail(name, "relation", {"word": bad, "missing": sorted(expected[bad] - got[bad])[:3],
-                                                        "extra": sorted(got[bad] - expected[bad])[:3]}))
+                failures.append(fail(name, "relation", {"word": bad, "missing": sorted(expected[bad] - got[bad], key=repr)[:3],
+                                                        "extra": sorted(got[bad] - expected[bad], key=repr)[:3]}))
     union = {w: rel1[w] | rel2[w] for w in words}
     check("union", lambda: F1.union(F2), union)
     check("or_operator", lambda: F1 | F2, union)
@@ -187,7 +187,7 @@ def run_fa(case, failures):
             for w in words:
                 exp = {w} if R.accepts(w) else set()
                 if rel[w] != exp:
-                    failures.append(fail("to_fst", "relation", {"word": w, "got": sorted(rel[w])[:3]}))
+                    failures.append(fail("to_fst", "relation", {"word": w, "got": sorted(rel[w], key=repr)[:3]}))
                     break
             for w in words[:20]:
                 got = set()
@@ -197,7 +197,7 @@ def run_fa(case, failures):
                         break
                 exp = {w} if R.accepts(w) else set()
                 if got != exp:
-                    failures.append(fail("to_fst.translate", "wrong", {"word": w, "got": sorted(got)[:3]}))
+                    failures.append(fail("to_fst.translate", "wrong", {"word": w, "got": sorted(got, key=repr)[:3]}))
                     break
     labels = ["fa"]
     if R.has_eps():
